@@ -121,7 +121,7 @@ def compare(got, exp, F, name, out, hyps=()):
         if (got.mask is None) != (exp.mask is None):
             out.append(Clause(name, "undecided", "", "selection on one side only"))
             return
-        idx = [ZERO if A.is_one(d) else T.fresh("q") for d in exp.shape]
+        idx = [T.generic_index(d, "q") for d in exp.shape]
         if exp.dtype == "bool" or got.dtype == "bool":
             g, e = C(got.fn(*idx)), C(exp.fn(*idx))
             ok = g == e
@@ -167,6 +167,13 @@ def compare(got, exp, F, name, out, hyps=()):
         compare_terms(got.slen(), exp.slen(), F, name + ".len", out, hyps, t0)
         i = T.fresh("q")
         compare(got.elem(i), exp.elem(i), F, name + "[i]", out, hyps)
+        return
+    if hasattr(exp, "items") and hasattr(exp, "attrs") and not isinstance(exp, dict):      # h5 group model
+        if not (hasattr(got, "items") and hasattr(got, "attrs")):
+            out.append(Clause(name, "refuted", "normaliser", "expected a group"))
+            return
+        compare(got.items, exp.items, F, name, out, hyps)
+        compare(got.attrs, exp.attrs, F, name + ".attrs", out, hyps)
         return
     if isinstance(exp, dict):
         if not isinstance(got, dict) or set(got) != set(exp):
